@@ -2,13 +2,16 @@
 # Runs tools/run_seeded.py against scratch copies of /repo and /verif in a private mount
 # namespace, so that nothing under the real /repo or /verif is touched while it works.
 # usage: seeded_sandbox.sh <results.json> [ids...]
+# VERIF_SRC=<dir> evaluates another checkout of /verif (e.g. an earlier commit); SANDBOX=<dir>
+# picks the scratch directory.
 set -e
-S=/tmp/seedrun
+S=${SANDBOX:-/tmp/seedrun}
+V=${VERIF_SRC:-/verif}
 rm -rf $S; mkdir -p $S/work
 git -C /repo worktree prune
 rsync -a --exclude target /repo/ $S/repo/
 git -C /verif worktree remove --force $S/verif 2>/dev/null || true
-rsync -a --exclude work --exclude replays /verif/ $S/verif/
+rsync -a --exclude work --exclude replays $V/ $S/verif/
 mkdir -p $S/verif/work $S/verif/replays
 RES=$1; shift
 unshare -m bash -c "mount --bind $S/repo /repo && mount --bind $S/verif /verif && cd /verif && python3 tools/run_seeded.py $RES $*"
